@@ -81,7 +81,7 @@ def r13_1(ctx, R):
                 # 65536 polls is an unbounded loop in practice (today: 61)
                 if found["room"] > BUDGET_CEILING:
                     ok = False
-                det = ("counter _%d init %s at %s, step %+d at %s, budget exhausted when count %s %s (edge bb%d->bb%d); on exhaustion: "
+                det = ("counter %s init %s at %s, step %+d at %s, budget exhausted when count %s %s (edge bb%d->bb%d); on exhaustion: "
                        "leaves the loop, self-wake and Pending on every feasible path: %s (%s); admits >=1 and <= 65536 child polls: %s" % (
                            found["l"], found["init"][1], d.loc(found["init"][0]), found["step"], [d.loc(x) for x in found["steps"]],
                            found["cmp"], found["bound"], found["sb"], found["tgt"], found["exit_ok"], found["exit_det"], 1 <= found["room"] <= BUDGET_CEILING))
@@ -105,24 +105,29 @@ def r13_1(ctx, R):
 
 
 def _step_of(e, l):
-    """+k / -k when e is `cell +/- const k` for the cell ("multi", l), else None."""
+    """+k / -k when e is `cell +/- const k` for the cell ("multi", l) (l an int) or the cell expression l itself, else None."""
+    cell_ = ("multi", l) if isinstance(l, int) else l
+    return _step_of_cell(e, cell_)
+
+
+def _step_of_cell(e, cell_):
     if e[0] == "proj" and e[2] == (".0",):
         e = e[1]
     if e[0] == "binop" and e[1] in ("Add", "AddWithOverflow", "AddUnchecked", "Sub", "SubWithOverflow", "SubUnchecked"):
         a, c = e[2], e[3]
-        if a == ("multi", l) and c[0] == "const":
+        if a == cell_ and c[0] == "const":
             try:
                 k = int(c[2])
             except ValueError:
                 return None
             return k if e[1].startswith("Add") else -k
     if e[0] == "call" and re.search(r"core::num::<impl usize>::(saturating_sub|wrapping_sub|saturating_add|wrapping_add)$", e[1] or "") and \
-            len(e[2]) == 2 and e[2][0] == ("multi", l) and e[2][1][0] == "const":
+            len(e[2]) == 2 and e[2][0] == cell_ and e[2][1][0] == "const":
         k = int(e[2][1][2])
         return k if "add" in e[1] else -k
     # `let Some(rest) = cell.checked_sub(k) else { .. }; cell = rest`
     if e[0] == "proj" and e[2] == ("@Some", ".0") and e[1][0] == "call" and re.search(r"core::num::<impl usize>::checked_(sub|add)$", e[1][1] or "") and \
-            len(e[1][2]) == 2 and strip_refs(e[1][2][0]) == ("multi", l) and e[1][2][1][0] == "const":
+            len(e[1][2]) == 2 and strip_refs(e[1][2][0]) == cell_ and e[1][2][1][0] == "const":
         k = int(e[1][2][1][2])
         return k if e[1][1].endswith("add") else -k
     return None
@@ -163,6 +168,27 @@ def find_budget(ctx, R, d, fl, head, body, inside):
                 cell(l)["steps"].append((sbb, k))
             elif sbb in body:
                 cell(l)["other"].append(sbb)
+    # a budget kept in a field of a local struct (`PollBudget { used }` with a `take(&mut self)` method read through): the cell
+    # is that field; its initial value is the constant the struct literal gives it before the loop
+    for (sbb, si, st) in fl.stores:
+        if si == "term":
+            continue
+        pe = fl.place_expr(st["place"])
+        if pe[0] == "proj" and pe[1][0] == "multi" and pe[1][1] in fl.stored_through_ref() and len(pe[2]) == 1 and pe[2][0].startswith("."):
+            k = _step_of_cell(fl.rvalue_expr(st["rv"], sbb), pe)
+            c_ = cell(pe)
+            if k is not None and sbb in body:
+                c_["steps"].append((sbb, k))
+            elif sbb in body:
+                c_["other"].append(sbb)
+            if not c_["inits"]:
+                for (db, di, dk, dn) in fl.defs.get(pe[1][1], []):
+                    if dk == "assign" and dn["rv"]["k"] == "aggregate" and db not in body and d.dominates(db, head):
+                        names = dn["rv"].get("fields") or []
+                        if pe[2][0][1:] in names:
+                            o_ = dn["rv"]["ops"][names.index(pe[2][0][1:])]
+                            if o_["k"] == "const" and "bits" in o_:
+                                c_["inits"].append((db, o_["bits"]))
     wakes = {bb for bb, t, fn in R.task_wake_sites(d)}
     pend = set(pending_assign_blocks(d))
     best = None
@@ -187,6 +213,7 @@ def find_budget(ctx, R, d, fl, head, body, inside):
     for l, c_ in cells.items():
         if not c_["steps"] or not c_["inits"] or c_["other"]:
             continue
+        cell_e = ("multi", l) if isinstance(l, int) else l
         dirs = {1 if k > 0 else -1 for _, k in c_["steps"]}
         if len(dirs) != 1:
             continue
@@ -201,17 +228,17 @@ def find_budget(ctx, R, d, fl, head, body, inside):
                     if lab[0] == "variant" and lab[2] == "None" and not up:
                         y = strip_refs(lab[1])
                         if y[0] == "call" and re.search(r"core::num::<impl usize>::checked_sub$", y[1] or "") and len(y[2]) == 2 and \
-                                strip_refs(y[2][0]) == ("multi", l) and y[2][1][0] == "const":
+                                strip_refs(y[2][0]) == cell_e and y[2][1][0] == "const":
                             # the None edge of cell.checked_sub(k): taken exactly when fewer than k are left -- read as `cell < k`
-                            lab = ("bool", ("binop", "Lt", ("multi", l), y[2][1]), True)
+                            lab = ("bool", ("binop", "Lt", cell_e, y[2][1]), True)
                             checked_none = True
                     if not (lab[0] == "bool" and lab[1][0] == "binop" and lab[1][1] in ("Gt", "Ge", "Lt", "Le", "Eq", "Ne")):
                         continue
                     op, a, c = lab[1][1], lab[1][2], lab[1][3]
-                    if c == ("multi", l) and a[0] == "const":
+                    if c == cell_e and a[0] == "const":
                         a, c = c, a
                         op = {"Gt": "Lt", "Ge": "Le", "Lt": "Gt", "Le": "Ge"}.get(op, op)
-                    if not (a == ("multi", l) and c[0] == "const"):
+                    if not (a == cell_e and c[0] == "const"):
                         continue
                     big = lab[2] if op in ("Gt", "Ge") else ((not lab[2]) if op in ("Lt", "Le") else None)
                     if op in ("Eq", "Ne"):
@@ -360,11 +387,70 @@ def r13_2(ctx, R):
     ctx.floor("R13.2", "group-loop-functions", len(fns), 2)
 
 
+def r13_3(ctx, R):
+    ctx.rule("R13.3", "a dequeued slot gets its turn: on every feasible path of a drain function, between a dequeue that handed out a "
+                      "slot and the next dequeue / the return, that slot's child is polled or the slot is found vacant (the "
+                      "Occupied-only accessor answered None); a dequeued slot that is put back into the ready queue (MARK) without "
+                      "having been polled loses its place to everything queued behind it -- with self-waking siblings, for ever")
+    import c14
+    from lib_facts import place_str
+    n = 0
+    accp = {a.path for a in R.accessor_fns}
+    for d in R.drain_fns:
+        fl = ctx.flow(d)
+        pops = R.pop_sites(d)
+        polls = {pb for pb, _, _ in R.child_poll_sites(d)}
+        accs = [(bb, t) for bb, t, fn in d.calls() if fn is not None and fn_name(fn) in accp and not d.is_cleanup(bb)]
+        popbbs = {pb for pb, _, _ in pops}
+        bad = None
+        segs = 0
+        try:
+            paths = list(sensitive_paths(d, fl, 2))
+        except RuntimeError:
+            paths = []
+        for kind_, pth, know in paths:
+            for (pbb, pt, pfn) in pops:
+                dest = place_str(pt["dest"])
+                payload = set(c14._payload(ctx, pt["dest"]["ty"]))
+                for i_, x_ in enumerate(pth):
+                    if x_ != pbb:
+                        continue
+                    end = len(pth)
+                    for j_ in range(i_ + 1, len(pth)):
+                        if pth[j_] in popbbs:
+                            end = j_
+                            break
+                    v_ = know[end - 1].get(dest) if end - 1 > i_ else None
+                    if v_ not in payload:
+                        continue
+                    segs += 1
+                    seg = pth[i_ + 1:end]
+                    polled = any(y_ in polls for y_ in seg)
+                    vacant = any(know[j_].get(place_str(at["dest"])) == "None" for ab, at in accs if ab in seg for j_ in range(i_ + 1, end))
+                    if not vacant:
+                        # ... or the None edge of a match / `?` / let-else on the accessor's result was taken
+                        for j_ in range(i_ + 1, end - 1):
+                            for lab in fl.edge_labels(pth[j_]).get(pth[j_ + 1], []):
+                                if lab[0] in ("variant", "notvariants"):
+                                    y_ = strip_refs(lab[1])
+                                    src_ = [c for c in ([y_] if y_[0] == "call" else []) + expr_calls(y_) if (c[1] or "") in accp]
+                                    if src_ and ((lab[0] == "variant" and lab[2] in ("None", "Break")) or (lab[0] == "notvariants" and "Some" in lab[2])):
+                                        vacant = True
+                    if not (polled or vacant) and bad is None:
+                        bad = pth[:end]
+        n += 1
+        ctx.ob("R13.3", d, "dequeued-slot-is-polled-or-vacant", bad is None and segs > 0, d_loc(d),
+               "%d dequeue-with-slot segments on feasible paths%s" % (segs, "" if bad is None else "; one neither polls the child nor finds the slot vacant"),
+               path=bad)
+    ctx.floor("R13.3", "drain-functions", n, 1)
+
+
 def run(ctx):
     R = roles(ctx)
     R.pop_fn, R.drain_fn, R.remove_fn
     r13_1(ctx, R)
     r13_2(ctx, R)
+    r13_3(ctx, R)
     # service order inside one group is the FIFO order of the ready queue only if (a) a child is polled exclusively when
     # its own entry is dequeued and (b) a merged stream that yielded goes back to the TAIL of that queue
     import c01
